@@ -337,6 +337,20 @@ def tphifLoop (E : Ell α) (txi stol : α) : Nat → α → α
 def tphif (E : Ell α) (txi : α) : α :=
   tphifLoop E txi ((sqrtEps : α) * fmax (1 : α) (RealLike.abs txi)) 5 txi
 
+/-- did the Newton loop of `tphif` stop by its tolerance (and not by the silent iteration cap `numit_ = 5`)? -/
+def tphifLoopConv (E : Ell α) (txi stol : α) : Nat → α → Bool
+  | 0, _ => false
+  | n + 1, tphi =>
+    let txia := txif E tphi
+    let tphi2 := sq tphi
+    let scphi2 := (1 : α) + tphi2
+    let scterm := scphi2 / ((1 : α) + sq txia)
+    let dtphi := (txi - txia) * scterm * RealLike.sqrt scterm * E.qx * sq ((1 : α) - E.e2 * tphi2 / scphi2)
+    if !(RealLike.leb stol (RealLike.abs dtphi)) then true else tphifLoopConv E txi stol n (tphi + dtphi)
+
+def tphifConv (E : Ell α) (txi : α) : Bool :=
+  tphifLoopConv E txi ((sqrtEps : α) * fmax (1 : α) (RealLike.abs txi)) 5 txi
+
 /-- exponent `e` with `|x|·2^e ∈ [1/2, 1)` for `0 < |x| < 1/2` (`frexp`) -/
 def frexpNeg (ax : α) : Nat → Nat → Nat
   | 0, e => e
